@@ -149,11 +149,15 @@ fn hdr_split(c0: usize, c1: usize) {
 }
 fn hdr_truncated(c: usize) {
     let mut e = ep();
+    let nfds: usize = kani::any();
+    kani::assume(nfds <= 2);
     // SAFETY: ghost state
     unsafe {
         g::put_hdr(0, 8, 1, 8);
         g::G.rx_len = c;
         g::G.rx_closed = true;
+        g::G.rx_nfds = nfds; // descriptors ride on the first byte, if any arrives
+        g::G.rx_fd_call = 1;
     }
     let r = e.recv_header();
     kani::cover!(r.is_err());
@@ -162,6 +166,11 @@ fn hdr_truncated(c: usize) {
         Err(Error::Disconnected) => assert!(c == 0, "C08: 'disconnected' only at a message boundary"),
         Err(Error::PartialMessage) => assert!(c > 0),
         Err(_) => assert!(false, "C08: unexpected error class for a truncated header"),
+    }
+    // SAFETY: ghost state
+    unsafe {
+        assert!(!g::G.blocked, "C03/C08: no wait on a closed stream");
+        assert!(!g::G.double_close && g::G.fd_state[0] != g::FD_OPEN && g::G.fd_state[1] != g::FD_OPEN, "C09: descriptors that arrived with a header cut short by the end of the stream are closed");
     }
     std::mem::forget(r);
 }
@@ -195,18 +204,27 @@ fn body_split(c0: usize, c1: usize) {
 }
 fn body_truncated(c: usize) {
     let mut e = ep();
+    let nfds: usize = kani::any();
+    kani::assume(nfds <= 2);
     // SAFETY: ghost state
     unsafe {
         g::put_hdr(0, 1, 5, 8);
         g::put64(12, kani::any());
         g::G.rx_len = c;
         g::G.rx_closed = true;
+        g::G.rx_nfds = nfds;
+        g::G.rx_fd_call = 1;
     }
     let r = e.recv_body::<VhostUserU64>();
     kani::cover!(r.is_err());
     assert!(r.is_err(), "C08: a truncated reply must be an error");
     if c > 0 {
         assert!(!matches!(&r, Err(Error::Disconnected)), "C08: 'disconnected' only at a message boundary");
+    }
+    // SAFETY: ghost state
+    unsafe {
+        assert!(!g::G.blocked, "C03/C08: no wait on a closed stream");
+        assert!(!g::G.double_close && g::G.fd_state[0] != g::FD_OPEN && g::G.fd_state[1] != g::FD_OPEN, "C09: descriptors that arrived with a reply cut short by the end of the stream are closed");
     }
     std::mem::forget(r);
 }
@@ -271,25 +289,25 @@ macro_rules! c08 {
     };
 }
 // ---- instantiations (generated once by hand-run script; edit freely)
-// @harness props=C08,C09 tier=quick reach=off bound="recv_header: 12 bytes delivered in segments cut at 1 and 12; all flags/size words, 0..=2 descriptors on the first segment" stubs="vmm-sys-util raw_recvmsg/raw_sendmsg (ghost stream socket with delivery cuts / partial accepts), close, OwnedFd::drop"
+// @harness props=C01,C08,C09 tier=quick reach=off bound="recv_header: 12 bytes delivered in segments cut at 1 and 12; all flags/size words, 0..=2 descriptors on the first segment" stubs="vmm-sys-util raw_recvmsg/raw_sendmsg (ghost stream socket with delivery cuts / partial accepts), close, OwnedFd::drop"
 c08!(c08_u_hdr_split_1_12, 6, hdr_split(1, 12));
-// @harness props=C08,C09 tier=quick reach=off bound="recv_header: 12 bytes delivered in segments cut at 4 and 8; all flags/size words, 0..=2 descriptors on the first segment" stubs="vmm-sys-util raw_recvmsg/raw_sendmsg (ghost stream socket with delivery cuts / partial accepts), close, OwnedFd::drop"
+// @harness props=C01,C08,C09 tier=quick reach=off bound="recv_header: 12 bytes delivered in segments cut at 4 and 8; all flags/size words, 0..=2 descriptors on the first segment" stubs="vmm-sys-util raw_recvmsg/raw_sendmsg (ghost stream socket with delivery cuts / partial accepts), close, OwnedFd::drop"
 c08!(c08_u_hdr_split_4_8, 6, hdr_split(4, 8));
-// @harness props=C08,C09 tier=quick reach=off bound="recv_header: 12 bytes delivered in segments cut at 11 and 12; all flags/size words, 0..=2 descriptors on the first segment" stubs="vmm-sys-util raw_recvmsg/raw_sendmsg (ghost stream socket with delivery cuts / partial accepts), close, OwnedFd::drop"
+// @harness props=C01,C08,C09 tier=quick reach=off bound="recv_header: 12 bytes delivered in segments cut at 11 and 12; all flags/size words, 0..=2 descriptors on the first segment" stubs="vmm-sys-util raw_recvmsg/raw_sendmsg (ghost stream socket with delivery cuts / partial accepts), close, OwnedFd::drop"
 c08!(c08_u_hdr_split_11_12, 6, hdr_split(11, 12));
-// @harness props=C08,C09 tier=thorough reach=off bound="recv_header: 12 bytes delivered in segments cut at 6 and 6; all flags/size words, 0..=2 descriptors on the first segment" stubs="vmm-sys-util raw_recvmsg/raw_sendmsg (ghost stream socket with delivery cuts / partial accepts), close, OwnedFd::drop"
+// @harness props=C01,C08,C09 tier=thorough reach=off bound="recv_header: 12 bytes delivered in segments cut at 6 and 6; all flags/size words, 0..=2 descriptors on the first segment" stubs="vmm-sys-util raw_recvmsg/raw_sendmsg (ghost stream socket with delivery cuts / partial accepts), close, OwnedFd::drop"
 c08!(c08_u_hdr_split_6_6, 6, hdr_split(6, 6));
-// @harness props=C08,C09 tier=thorough reach=off bound="recv_header: 12 bytes delivered in segments cut at 8 and 9; all flags/size words, 0..=2 descriptors on the first segment" stubs="vmm-sys-util raw_recvmsg/raw_sendmsg (ghost stream socket with delivery cuts / partial accepts), close, OwnedFd::drop"
+// @harness props=C01,C08,C09 tier=thorough reach=off bound="recv_header: 12 bytes delivered in segments cut at 8 and 9; all flags/size words, 0..=2 descriptors on the first segment" stubs="vmm-sys-util raw_recvmsg/raw_sendmsg (ghost stream socket with delivery cuts / partial accepts), close, OwnedFd::drop"
 c08!(c08_u_hdr_split_8_9, 6, hdr_split(8, 9));
-// @harness props=C08,C09 tier=thorough reach=off bound="recv_header: 12 bytes delivered in segments cut at 2 and 3; all flags/size words, 0..=2 descriptors on the first segment" stubs="vmm-sys-util raw_recvmsg/raw_sendmsg (ghost stream socket with delivery cuts / partial accepts), close, OwnedFd::drop"
+// @harness props=C01,C08,C09 tier=thorough reach=off bound="recv_header: 12 bytes delivered in segments cut at 2 and 3; all flags/size words, 0..=2 descriptors on the first segment" stubs="vmm-sys-util raw_recvmsg/raw_sendmsg (ghost stream socket with delivery cuts / partial accepts), close, OwnedFd::drop"
 c08!(c08_u_hdr_split_2_3, 6, hdr_split(2, 3));
-// @harness props=C08 tier=quick reach=off bound="recv_header: stream ends after 0 bytes" stubs="vmm-sys-util raw_recvmsg/raw_sendmsg (ghost stream socket with delivery cuts / partial accepts), close, OwnedFd::drop"
+// @harness props=C03,C06,C08,C09 tier=quick reach=off bound="recv_header (0..=2 descriptors on the first byte): stream ends after 0 bytes" stubs="vmm-sys-util raw_recvmsg/raw_sendmsg (ghost stream socket with delivery cuts / partial accepts), close, OwnedFd::drop"
 c08!(c08_u_hdr_truncated_0, 6, hdr_truncated(0));
-// @harness props=C08 tier=quick reach=off bound="recv_header: stream ends after 1 bytes" stubs="vmm-sys-util raw_recvmsg/raw_sendmsg (ghost stream socket with delivery cuts / partial accepts), close, OwnedFd::drop"
+// @harness props=C03,C06,C08,C09 tier=quick reach=off bound="recv_header (0..=2 descriptors on the first byte): stream ends after 1 bytes" stubs="vmm-sys-util raw_recvmsg/raw_sendmsg (ghost stream socket with delivery cuts / partial accepts), close, OwnedFd::drop"
 c08!(c08_u_hdr_truncated_1, 6, hdr_truncated(1));
-// @harness props=C08 tier=quick reach=off bound="recv_header: stream ends after 11 bytes" stubs="vmm-sys-util raw_recvmsg/raw_sendmsg (ghost stream socket with delivery cuts / partial accepts), close, OwnedFd::drop"
+// @harness props=C03,C06,C08,C09 tier=quick reach=off bound="recv_header (0..=2 descriptors on the first byte): stream ends after 11 bytes" stubs="vmm-sys-util raw_recvmsg/raw_sendmsg (ghost stream socket with delivery cuts / partial accepts), close, OwnedFd::drop"
 c08!(c08_u_hdr_truncated_11, 6, hdr_truncated(11));
-// @harness props=C08 tier=thorough reach=off bound="recv_header: stream ends after 6 bytes" stubs="vmm-sys-util raw_recvmsg/raw_sendmsg (ghost stream socket with delivery cuts / partial accepts), close, OwnedFd::drop"
+// @harness props=C03,C06,C08,C09 tier=thorough reach=off bound="recv_header (0..=2 descriptors on the first byte): stream ends after 6 bytes" stubs="vmm-sys-util raw_recvmsg/raw_sendmsg (ghost stream socket with delivery cuts / partial accepts), close, OwnedFd::drop"
 c08!(c08_u_hdr_truncated_6, 6, hdr_truncated(6));
 // @harness props=C08,C06,C01 tier=quick reach=off bound="recv_body<u64>: 20 bytes (header+body) cut at 12 and 20; all body values, 0..=2 descriptors" stubs="vmm-sys-util raw_recvmsg/raw_sendmsg (ghost stream socket with delivery cuts / partial accepts), close, OwnedFd::drop"
 c08!(c08_u_body_split_12_20, 6, body_split(12, 20));
@@ -301,49 +319,49 @@ c08!(c08_u_body_split_19_20, 6, body_split(19, 20));
 c08!(c08_u_body_split_12_16, 6, body_split(12, 16));
 // @harness props=C08,C06,C01 tier=thorough reach=off bound="recv_body<u64>: 20 bytes (header+body) cut at 1 and 2; all body values, 0..=2 descriptors" stubs="vmm-sys-util raw_recvmsg/raw_sendmsg (ghost stream socket with delivery cuts / partial accepts), close, OwnedFd::drop"
 c08!(c08_u_body_split_1_2, 6, body_split(1, 2));
-// @harness props=C08,C06 tier=quick reach=off bound="recv_body<u64>: stream ends after 0 bytes" stubs="vmm-sys-util raw_recvmsg/raw_sendmsg (ghost stream socket with delivery cuts / partial accepts), close, OwnedFd::drop"
+// @harness props=C03,C06,C08,C09 tier=quick reach=off bound="recv_body<u64> (0..=2 descriptors on the first byte): stream ends after 0 bytes" stubs="vmm-sys-util raw_recvmsg/raw_sendmsg (ghost stream socket with delivery cuts / partial accepts), close, OwnedFd::drop"
 c08!(c08_u_body_truncated_0, 6, body_truncated(0));
-// @harness props=C08,C06 tier=quick reach=off bound="recv_body<u64>: stream ends after 12 bytes" stubs="vmm-sys-util raw_recvmsg/raw_sendmsg (ghost stream socket with delivery cuts / partial accepts), close, OwnedFd::drop"
+// @harness props=C03,C06,C08,C09 tier=quick reach=off bound="recv_body<u64> (0..=2 descriptors on the first byte): stream ends after 12 bytes" stubs="vmm-sys-util raw_recvmsg/raw_sendmsg (ghost stream socket with delivery cuts / partial accepts), close, OwnedFd::drop"
 c08!(c08_u_body_truncated_12, 6, body_truncated(12));
-// @harness props=C08,C06 tier=quick reach=off bound="recv_body<u64>: stream ends after 19 bytes" stubs="vmm-sys-util raw_recvmsg/raw_sendmsg (ghost stream socket with delivery cuts / partial accepts), close, OwnedFd::drop"
+// @harness props=C03,C06,C08,C09 tier=quick reach=off bound="recv_body<u64> (0..=2 descriptors on the first byte): stream ends after 19 bytes" stubs="vmm-sys-util raw_recvmsg/raw_sendmsg (ghost stream socket with delivery cuts / partial accepts), close, OwnedFd::drop"
 c08!(c08_u_body_truncated_19, 6, body_truncated(19));
-// @harness props=C08,C06 tier=thorough reach=off bound="recv_body<u64>: stream ends after 5 bytes" stubs="vmm-sys-util raw_recvmsg/raw_sendmsg (ghost stream socket with delivery cuts / partial accepts), close, OwnedFd::drop"
+// @harness props=C03,C06,C08,C09 tier=thorough reach=off bound="recv_body<u64> (0..=2 descriptors on the first byte): stream ends after 5 bytes" stubs="vmm-sys-util raw_recvmsg/raw_sendmsg (ghost stream socket with delivery cuts / partial accepts), close, OwnedFd::drop"
 c08!(c08_u_body_truncated_5, 6, body_truncated(5));
-// @harness props=C08,C01 tier=quick reach=off bound="send_message(header+u64): socket accepts at most 7 bytes per call; all flag/body values, 0..=2 descriptors" stubs="vmm-sys-util raw_recvmsg/raw_sendmsg (ghost stream socket with delivery cuts / partial accepts), close, OwnedFd::drop"
+// @harness props=C01,C02,C08 tier=quick reach=off bound="send_message(header+u64): socket accepts at most 7 bytes per call; all flag/body values, 0..=2 descriptors" stubs="vmm-sys-util raw_recvmsg/raw_sendmsg (ghost stream socket with delivery cuts / partial accepts), close, OwnedFd::drop"
 c08!(c08_u_send_partial_7, 10, send_partial(7));
-// @harness props=C08,C01 tier=quick reach=off bound="send_message(header+u64): socket accepts at most 12 bytes per call; all flag/body values, 0..=2 descriptors" stubs="vmm-sys-util raw_recvmsg/raw_sendmsg (ghost stream socket with delivery cuts / partial accepts), close, OwnedFd::drop"
+// @harness props=C01,C02,C08 tier=quick reach=off bound="send_message(header+u64): socket accepts at most 12 bytes per call; all flag/body values, 0..=2 descriptors" stubs="vmm-sys-util raw_recvmsg/raw_sendmsg (ghost stream socket with delivery cuts / partial accepts), close, OwnedFd::drop"
 c08!(c08_u_send_partial_12, 10, send_partial(12));
-// @harness props=C08,C01 tier=quick reach=off bound="send_message(header+u64): socket accepts at most 19 bytes per call; all flag/body values, 0..=2 descriptors" stubs="vmm-sys-util raw_recvmsg/raw_sendmsg (ghost stream socket with delivery cuts / partial accepts), close, OwnedFd::drop"
+// @harness props=C01,C02,C08 tier=quick reach=off bound="send_message(header+u64): socket accepts at most 19 bytes per call; all flag/body values, 0..=2 descriptors" stubs="vmm-sys-util raw_recvmsg/raw_sendmsg (ghost stream socket with delivery cuts / partial accepts), close, OwnedFd::drop"
 c08!(c08_u_send_partial_19, 10, send_partial(19));
-// @harness props=C08,C01 tier=thorough reach=off bound="send_message(header+u64): socket accepts at most 3 bytes per call; all flag/body values, 0..=2 descriptors" stubs="vmm-sys-util raw_recvmsg/raw_sendmsg (ghost stream socket with delivery cuts / partial accepts), close, OwnedFd::drop"
+// @harness props=C01,C02,C08 tier=thorough reach=off bound="send_message(header+u64): socket accepts at most 3 bytes per call; all flag/body values, 0..=2 descriptors" stubs="vmm-sys-util raw_recvmsg/raw_sendmsg (ghost stream socket with delivery cuts / partial accepts), close, OwnedFd::drop"
 c08!(c08_u_send_partial_3, 10, send_partial(3));
-// @harness props=C08,C01 tier=thorough reach=off bound="send_message(header+u64): socket accepts at most 1 bytes per call; all flag/body values, 0..=2 descriptors" stubs="vmm-sys-util raw_recvmsg/raw_sendmsg (ghost stream socket with delivery cuts / partial accepts), close, OwnedFd::drop"
+// @harness props=C01,C02,C08 tier=thorough reach=off bound="send_message(header+u64): socket accepts at most 1 bytes per call; all flag/body values, 0..=2 descriptors" stubs="vmm-sys-util raw_recvmsg/raw_sendmsg (ghost stream socket with delivery cuts / partial accepts), close, OwnedFd::drop"
 c08!(c08_u_send_partial_1, 24, send_partial(1));
-// @harness props=C08 tier=quick reach=off bound="send_message(header+u64): send call 1 fails once with EAGAIN, 13 bytes accepted per call" stubs="vmm-sys-util raw_recvmsg/raw_sendmsg (ghost stream socket with delivery cuts / partial accepts), close, OwnedFd::drop"
+// @harness props=C01,C02,C08 tier=quick reach=off bound="send_message(header+u64): send call 1 fails once with EAGAIN, 13 bytes accepted per call" stubs="vmm-sys-util raw_recvmsg/raw_sendmsg (ghost stream socket with delivery cuts / partial accepts), close, OwnedFd::drop"
 c08!(c08_u_send_retry_eagain_1, 4, send_retry(libc::EAGAIN, 1));
-// @harness props=C08 tier=thorough reach=off bound="send_message(header+u64): send call 2 fails once with EAGAIN, 13 bytes accepted per call" stubs="vmm-sys-util raw_recvmsg/raw_sendmsg (ghost stream socket with delivery cuts / partial accepts), close, OwnedFd::drop"
+// @harness props=C01,C02,C08 tier=thorough reach=off bound="send_message(header+u64): send call 2 fails once with EAGAIN, 13 bytes accepted per call" stubs="vmm-sys-util raw_recvmsg/raw_sendmsg (ghost stream socket with delivery cuts / partial accepts), close, OwnedFd::drop"
 c08!(c08_u_send_retry_eagain_2, 4, send_retry(libc::EAGAIN, 2));
-// @harness props=C08 tier=thorough reach=off bound="send_message(header+u64): send call 1 fails once with EINTR, 13 bytes accepted per call" stubs="vmm-sys-util raw_recvmsg/raw_sendmsg (ghost stream socket with delivery cuts / partial accepts), close, OwnedFd::drop"
+// @harness props=C01,C02,C08 tier=thorough reach=off bound="send_message(header+u64): send call 1 fails once with EINTR, 13 bytes accepted per call" stubs="vmm-sys-util raw_recvmsg/raw_sendmsg (ghost stream socket with delivery cuts / partial accepts), close, OwnedFd::drop"
 c08!(c08_u_send_retry_eintr_1, 4, send_retry(libc::EINTR, 1));
-// @harness props=C08 tier=quick reach=off bound="send_message(header+u64): send call 2 fails once with EINTR, 13 bytes accepted per call" stubs="vmm-sys-util raw_recvmsg/raw_sendmsg (ghost stream socket with delivery cuts / partial accepts), close, OwnedFd::drop"
+// @harness props=C01,C02,C08 tier=quick reach=off bound="send_message(header+u64): send call 2 fails once with EINTR, 13 bytes accepted per call" stubs="vmm-sys-util raw_recvmsg/raw_sendmsg (ghost stream socket with delivery cuts / partial accepts), close, OwnedFd::drop"
 c08!(c08_u_send_retry_eintr_2, 4, send_retry(libc::EINTR, 2));
-// @harness props=C08 tier=thorough reach=off bound="send_message(header+u64): send call 1 fails once with ENOBUFS, 13 bytes accepted per call" stubs="vmm-sys-util raw_recvmsg/raw_sendmsg (ghost stream socket with delivery cuts / partial accepts), close, OwnedFd::drop"
+// @harness props=C01,C02,C08 tier=thorough reach=off bound="send_message(header+u64): send call 1 fails once with ENOBUFS, 13 bytes accepted per call" stubs="vmm-sys-util raw_recvmsg/raw_sendmsg (ghost stream socket with delivery cuts / partial accepts), close, OwnedFd::drop"
 c08!(c08_u_send_retry_enobufs_1, 4, send_retry(libc::ENOBUFS, 1));
-// @harness props=C08 tier=thorough reach=off bound="send_message(header+u64): send call 2 fails once with ENOBUFS, 13 bytes accepted per call" stubs="vmm-sys-util raw_recvmsg/raw_sendmsg (ghost stream socket with delivery cuts / partial accepts), close, OwnedFd::drop"
+// @harness props=C01,C02,C08 tier=thorough reach=off bound="send_message(header+u64): send call 2 fails once with ENOBUFS, 13 bytes accepted per call" stubs="vmm-sys-util raw_recvmsg/raw_sendmsg (ghost stream socket with delivery cuts / partial accepts), close, OwnedFd::drop"
 c08!(c08_u_send_retry_enobufs_2, 4, send_retry(libc::ENOBUFS, 2));
-// @harness props=C08,C01 tier=quick reach=off bound="recv_data(8): request body delivered in two segments cut at byte 1; all body values" stubs="vmm-sys-util raw_recvmsg/raw_sendmsg (ghost stream socket with delivery cuts / partial accepts), close, OwnedFd::drop"
+// @harness props=C01,C02,C08 tier=quick reach=off bound="recv_data(8): request body delivered in two segments cut at byte 1; all body values" stubs="vmm-sys-util raw_recvmsg/raw_sendmsg (ghost stream socket with delivery cuts / partial accepts), close, OwnedFd::drop"
 c08!(c08_u_data_split_1, 5, data_split(1));
-// @harness props=C08,C01 tier=quick reach=off bound="recv_data(8): request body delivered in two segments cut at byte 4; all body values" stubs="vmm-sys-util raw_recvmsg/raw_sendmsg (ghost stream socket with delivery cuts / partial accepts), close, OwnedFd::drop"
+// @harness props=C01,C02,C08 tier=quick reach=off bound="recv_data(8): request body delivered in two segments cut at byte 4; all body values" stubs="vmm-sys-util raw_recvmsg/raw_sendmsg (ghost stream socket with delivery cuts / partial accepts), close, OwnedFd::drop"
 c08!(c08_u_data_split_4, 5, data_split(4));
-// @harness props=C08,C01 tier=quick reach=off bound="recv_data(8): request body delivered in two segments cut at byte 7; all body values" stubs="vmm-sys-util raw_recvmsg/raw_sendmsg (ghost stream socket with delivery cuts / partial accepts), close, OwnedFd::drop"
+// @harness props=C01,C02,C08 tier=quick reach=off bound="recv_data(8): request body delivered in two segments cut at byte 7; all body values" stubs="vmm-sys-util raw_recvmsg/raw_sendmsg (ghost stream socket with delivery cuts / partial accepts), close, OwnedFd::drop"
 c08!(c08_u_data_split_7, 5, data_split(7));
-// @harness props=C08,C01 tier=thorough reach=off bound="recv_data(8): request body delivered in two segments cut at byte 3; all body values" stubs="vmm-sys-util raw_recvmsg/raw_sendmsg (ghost stream socket with delivery cuts / partial accepts), close, OwnedFd::drop"
+// @harness props=C01,C02,C08 tier=thorough reach=off bound="recv_data(8): request body delivered in two segments cut at byte 3; all body values" stubs="vmm-sys-util raw_recvmsg/raw_sendmsg (ghost stream socket with delivery cuts / partial accepts), close, OwnedFd::drop"
 c08!(c08_u_data_split_3, 5, data_split(3));
-// @harness props=C08 tier=quick reach=off bound="recv_data(8): stream ends after 0 body bytes" stubs="vmm-sys-util raw_recvmsg/raw_sendmsg (ghost stream socket with delivery cuts / partial accepts), close, OwnedFd::drop"
+// @harness props=C03,C06,C08 tier=quick reach=off bound="recv_data(8): stream ends after 0 body bytes" stubs="vmm-sys-util raw_recvmsg/raw_sendmsg (ghost stream socket with delivery cuts / partial accepts), close, OwnedFd::drop"
 c08!(c08_u_data_truncated_0, 5, data_truncated(0));
-// @harness props=C08 tier=quick reach=off bound="recv_data(8): stream ends after 5 body bytes" stubs="vmm-sys-util raw_recvmsg/raw_sendmsg (ghost stream socket with delivery cuts / partial accepts), close, OwnedFd::drop"
+// @harness props=C03,C06,C08 tier=quick reach=off bound="recv_data(8): stream ends after 5 body bytes" stubs="vmm-sys-util raw_recvmsg/raw_sendmsg (ghost stream socket with delivery cuts / partial accepts), close, OwnedFd::drop"
 c08!(c08_u_data_truncated_5, 5, data_truncated(5));
-// @harness props=C08 tier=thorough reach=off bound="recv_data(8): stream ends after 7 body bytes" stubs="vmm-sys-util raw_recvmsg/raw_sendmsg (ghost stream socket with delivery cuts / partial accepts), close, OwnedFd::drop"
+// @harness props=C03,C06,C08 tier=thorough reach=off bound="recv_data(8): stream ends after 7 body bytes" stubs="vmm-sys-util raw_recvmsg/raw_sendmsg (ghost stream socket with delivery cuts / partial accepts), close, OwnedFd::drop"
 c08!(c08_u_data_truncated_7, 5, data_truncated(7));
 // @harness props=C09 tier=quick reach=off timeout=600 bound="recv_header: header with 33 descriptors attached (one more than the per-message limit)" stubs="vmm-sys-util raw_recvmsg (ghost: descriptors counted; MSG_CTRUNC -> ENOBUFS as vmm-sys-util reports it), close, OwnedFd::drop"
 c08!(c09_u_hdr_33_fds, 40, hdr_many_fds(33));
